@@ -242,6 +242,11 @@ func injectConcretise(segs []injectSeg, id, variant int, salt string) *injectCon
 		}
 		switch shape {
 		case "top":
+			if r.Intn(10) == 0 {
+				// a //line directive (generated code points back at its source): positions REPORTED for what follows are
+				// renumbered - far beyond the file's real line count - while offsets stay what they are
+				fmt.Fprintf(&b, "//line %s.proto:%d\n", name, 9000+r.Intn(90000))
+			}
 			if r.Intn(2) == 0 {
 				fmt.Fprintf(&b, "// %s 说明 doc comment\n", name)
 			}
